@@ -20,6 +20,7 @@ Only the standard library is used.  Import this module and call `install()` firs
 from __future__ import annotations
 
 import _thread
+import os
 import sys
 import time as _time
 
@@ -90,7 +91,9 @@ class SchedLock:
             s.block(me, self, deadline, 'lock')
             if self._real.acquire(False):
                 return True
-            if deadline is not None and s.now >= deadline:
+            if deadline is not None and (s.now >= deadline or me.timed_out):
+                # (`timed_out` without the clock having reached the deadline: a scripted expiry of this one timer under a
+                # guided strategy that leaves the clock alone)
                 return False
 
     __enter__ = acquire
@@ -215,7 +218,12 @@ class GuidedStrategy(Strategy):
         self.followed = 0
         self.skipped = 0
         self.last_ev = {}
+        self.seen_roles = set()
+        self.unborn = 0
         self._open()
+
+    def on_thread(self, sched, ts):
+        self.seen_roles.add(self.role_of(ts))
 
     def _open(self):
         while self.ptr < len(self.script) and self.script[self.ptr].get('ev') is None \
@@ -246,6 +254,8 @@ class GuidedStrategy(Strategy):
         if self.ptr < len(self.script) and self.script[self.ptr].get('fire'):
             role = self.script[self.ptr]['role']
             need = self.script[self.ptr].get('after')       # the timer belongs to the wait that follows this event
+            if os.environ.get('VERIF_DEBUG_GUIDED'):
+                print('FIRE?', self.ptr, role, need, [(self.role_of(t), t.deadline, self.last_ev.get(self.role_of(t))) for t in due], file=sys.stderr)
             for t in due:
                 if self.role_of(t) == role and (need is None or self.last_ev.get(role) in need):
                     self.ptr += 1
@@ -262,11 +272,18 @@ class GuidedStrategy(Strategy):
             if cands:
                 self.stuck = 0
                 return current if current in cands else cands[0]
-            self.stuck += 1
+            if role not in self.seen_roles and self.unborn < 5000:
+                # the thread that plays this role has not been created yet: that is not "the behaviour cannot be followed";
+                # let the others (above all the thread that creates it) run without using up the patience
+                self.unborn += 1
+            else:
+                self.stuck += 1
             if self.stuck > self.patience:
                 k = self.script[self.ptr].get('open')
                 if k is not None:
                     self.gates[k] = True
+                if os.environ.get('VERIF_DEBUG_GUIDED'):
+                    print('SKIP', self.ptr, self.script[self.ptr], [(self.role_of(t), t.status) for t in sched.all], file=sys.stderr)
                 self.ptr += 1
                 self.skipped += 1
                 self.stuck = 0
